@@ -315,6 +315,8 @@ class World:
         self.versions = {}                 # file index -> [(content|None, mtime)]
         self.violation = None
         self.files = [ROOT + '/' + f for f in cfg['files']]
+        if len(set(self.files)) != len(self.files):
+            raise HarnessError('the plan lists a source path twice: %r' % (cfg['files'],))
         self.cdirs = [Path(ROOT + '/cache%d' % i) for i in range(cfg.get('cdirs', 1))]
         self.default_cdir = Path(ROOT + '/home/.cache/parso')
         self.next_i = 0
